@@ -359,6 +359,15 @@ def judge_multiply(before, after, version, m, k, copy_names, policy):
     if dupid:
       probs.append(("identifier-collides", "edge", "identifier(s) {} written "
                     "twice".format(sorted(dupid))))
+  else:
+    # GFA1: the ID tag of a link / containment is its identifier
+    ids = names_a + [r.pos[0] for r in ra if r.rt == "P"] + \
+        [t[2] for r in ra if r.rt in ("L", "C") for t in r.tags if t[0] == "ID"]
+    dupid = [n for n, c in collections.Counter(ids).items() if c > 1
+             and n not in dup]
+    if dupid:
+      probs.append(("identifier-collides", "edge", "identifier(s) {} written "
+                    "twice".format(sorted(dupid))))
   gone = set(names_b) - set(names_a)
   if gone:
     probs.append(("segment-lost", "segment", "segments {} disappeared".format(
@@ -415,7 +424,11 @@ def judge_multiply(before, after, version, m, k, copy_names, policy):
                         r.text)))
       continue
     images[pre].append(r)
-    t = tags_match(o.tags, r.tags, k)
+    # like the GFA2 edge identifier, the GFA1 ID tag is not part of what a
+    # copy has to reproduce (identifiers are unique; uniqueness is demanded
+    # above)
+    noid = lambda ts: [x for x in ts if not (version == "gfa1" and x[0] == "ID")]
+    t = tags_match(noid(o.tags), noid(r.tags), k)
     if t:
       clause = "count-division" if "expected" in t else "edge-copy-differs"
       probs.append((clause, _ekind(o, version, {m}) + "/" + (
